@@ -111,14 +111,32 @@ def worker(ctx):
                 compare("relative-path-and-cwd", lang, opt, cli_variant("rel", lang, opt, os.path.relpath(od, top), rel, top, "0", False))
                 od = os.path.join(top, f"cli-{lang}-{int(opt)}-q", "deeper", "dir")
                 compare("quiet-and-other-outdir", lang, opt, cli_variant("q", lang, opt, od, main, src, "3", True))
+                if root.imports and vi == (case_id % len(modes)):
+                    # a working directory that holds DIFFERENT files under every relative import path the schema uses
+                    # (and under the bare file names): a resolution that consults the cwd finds the decoy
+                    import posixpath
+                    decoy = os.path.join(top, f"decoy-{lang}-{int(opt)}", "d1", "d2", "d3", "d4")
+                    os.makedirs(decoy)
+                    for g in root.all_files():
+                        for imp in g.imports:
+                            spellings = {posixpath.relpath(imp.file.relpath, start=g.subdir or "."), imp.file.filename, imp.file.relpath}
+                            for sp in spellings:
+                                dp = os.path.normpath(os.path.join(decoy, sp))
+                                os.makedirs(os.path.dirname(dp), exist_ok=True)
+                                with open(dp, "w") as fh:
+                                    fh.write(f"proto {imp.file.proto_name}\nmessage DecoyOnly {{ uint7 decoy = 1 }}\n")
+                    res.count("decoy_cwd_variants")
+                    od = os.path.join(top, f"cli-{lang}-{int(opt)}-decoy")
+                    compare("decoy-files-in-cwd", lang, opt, cli_variant("decoy", lang, opt, od, main, decoy, "4", False))
                 if vi == 0:
                     # default output directory (next to the schema) from another cwd
                     rc, out, err = sut_compiler.cli([lang, os.path.relpath(main, "/")], cwd="/", hashseed="5")
                     res.count("cli_compilations")
-                    compare("default-outdir", lang, opt, digest_dir(src) if rc == 0 else None)
-                    for n in list(os.listdir(src)):
+                    beside = os.path.dirname(main)
+                    compare("default-outdir", lang, opt, digest_dir(beside) if rc == 0 else None)
+                    for n in list(os.listdir(beside)):
                         if "_bp." in n:
-                            os.unlink(os.path.join(src, n))
+                            os.unlink(os.path.join(beside, n))
             # ---- same process: repeated and interleaved -----------------------------
             for rep in range(2):
                 for (lang, opt) in (modes if rep == 0 else list(reversed(modes))):
@@ -152,7 +170,13 @@ def worker(ctx):
             keep = os.path.join(ctx.tmp, "prev-src")
             shutil.rmtree(keep, ignore_errors=True)
             shutil.copytree(src, keep)
-            prev = os.path.join(keep, os.path.basename(main))
+            for dp, _, fns in os.walk(keep):  # absolute import paths must follow the copy
+                for fn in fns:
+                    if fn.endswith(".bitproto"):
+                        t = open(os.path.join(dp, fn)).read()
+                        if os.path.abspath(src) in t:
+                            open(os.path.join(dp, fn), "w").write(t.replace(os.path.abspath(src), os.path.abspath(keep)))
+            prev = os.path.join(keep, os.path.relpath(main, src))
         finally:
             shutil.rmtree(top, ignore_errors=True)
         if ctx.replay is not None:
@@ -168,10 +192,11 @@ if __name__ == "__main__":
     harness.main(
         "C18", "props.C18", worker,
         rule=("case = generated valid schema; reference = first in-process compilation (c, go, py; c -O and go -O when traditional); variants: "
-              "fresh CLI processes with PYTHONHASHSEED 0/1/2/random, relative path + other cwd, -q + other output directory, default output "
+              "fresh CLI processes with PYTHONHASHSEED 0/1/2/random, relative path + other cwd, -q + other output directory, a cwd holding different "
+              "files under every relative import path of the schema (decoys), default output "
               "directory; in-process repeats in forward and reverse language order, one parse rendered for all languages in both orders, "
               "parse A/parse B/render B/render A interleaving with the previous schema; sha256 of every generated file compared; the "
               "cache-coherence monitor recomputes every memoised AST method on every call; non-trivial/distinct as in C01"),
         assumptions=["the generated files are the only observable output that matters (stderr lint text is not compared)"],
-        required_counters=["variants_compared", "cli_compilations"],
+        required_counters=["variants_compared", "cli_compilations", "decoy_cwd_variants"],
     )
